@@ -1,8 +1,9 @@
 (* C15 -- greenlet stacks per lifecycle state (proved in P_Greenlet.v) about the model functions
    M_Greenlet.unwrap_greenlet / M_Slice.unwrap_stackslice that harness/c15.py evaluates on real
-   greenlet trees.  The greenback bridges are covered by a runtime leg only (see c15.py). *)
+   greenlet trees.  The greenback bridges: model M_Greenback.gb_extract (the three elaborators over
+   the frame shapes recorded from real runs), evaluated by the correspondence kind "gb". *)
 From Coq Require Import ZArith String.
-Require Import Base M_Slice P_Slice M_Greenlet P_Greenlet.
+Require Import Base M_Slice P_Slice M_Greenlet P_Greenlet M_Greenback P_Greenback.
 
 (* unstarted or dead: no frames *)
 Theorem C15_inactive_empty : forall w g,
@@ -57,3 +58,27 @@ Theorem C15_hypotheses_satisfiable :
   /\ thread_frames wg = [6; 5] ++ [4; 3] ++ [2; 1; 0] /\ chain_from wg 4 = [4; 3].
 Proof. exact wg_examples. Qed.
 Print Assumptions C15_hypotheses_satisfiable.
+
+(* greenback, extraction from inside the task, j greenlets below its sync code, for EVERY number n
+   of async/sync alternations: the visible frames are exactly the user's call stack -- through
+   each await_ bridge down to the caller's own frames -- and every bridging frame is hidden *)
+Theorem C15_greenback_n_inside : forall n j,
+  exists l, gb_extract {| sc_inside := true; sc_n := n; sc_j := j |} = GOk l
+            /\ visible l = FShimCoro :: FTarget :: ulog n ++ [FA 0; FLeaf] ++ repeat FNested (S j) ++ [FProbe]
+            /\ (forall k h, In (k, h) l -> bridging k = true -> h = true).
+Proof. exact greenback_inside. Qed.
+Print Assumptions C15_greenback_n_inside.
+
+(* the same from outside the task (parked in a regular await at level 0) *)
+Theorem C15_greenback_n_outside : forall n,
+  exists l, gb_extract {| sc_inside := false; sc_n := n; sc_j := 0 |} = GOk l
+            /\ visible l = FShimCoro :: FTarget :: ulog n ++ [FA 0; FWait]
+            /\ (forall k h, In (k, h) l -> bridging k = true -> h = true).
+Proof. exact greenback_outside. Qed.
+Print Assumptions C15_greenback_n_outside.
+
+Theorem C15_greenback_example :
+  visible (match gb_extract {| sc_inside := true; sc_n := 2; sc_j := 1 |} with GOk l => l | _ => [] end)
+  = [FShimCoro; FTarget; FA 2; FS 2; FA 1; FS 1; FA 0; FLeaf; FNested; FNested; FProbe].
+Proof. exact greenback_example. Qed.
+Print Assumptions C15_greenback_example.
